@@ -7,6 +7,8 @@
  *   h_nowait_<shim>  (c) O_NONBLOCK by fcntl / FIONBIO / MSG_DONTWAIT / locked thread / unmanaged
  *                        descriptor: never suspends, one real call, its result
  *   h_abort_<shim>       descriptor closed while the fiber waits: error, no further real call
+ *   h_anyfd_<shim>   (a) arbitrary descriptor (valid, closed, negative, >= max_fd): error return, no
+ *                        suspension, no access outside fd_info[0..max_fd)
  *   h_create_*       (d) socket/socketpair/pipe/accept mark descriptors
  *   h_mode_restore   (d) back to blocking mode via fcntl(F_SETFL)/ioctl(FIONBIO,0)
  *   h_fcntl_other, h_getfl, h_ioctl_other, h_close, h_closedfd_mode
@@ -198,6 +200,33 @@ SHIMS(H_NOWAIT)
   }
 SHIMS(H_ABORT)
 
+/* ------------------------------------------------------------ (a) arbitrary descriptor argument */
+/* any int (valid, closed, negative, >= max_fd), any bookkeeping state, locked or unlocked thread.
+ * CBMC's bounds/pointer checks watch the real fd_info (exactly max_fd entries). */
+#define H_ANYFD(NAME, DIR, HASFL, KIND, SETARGS, CALL)                                                      \
+  void h_anyfd_##NAME(void) {                                                                               \
+    io_env_init();                                                                                          \
+    if (nondet_bool()) fiber_io_lock_thread();                                                              \
+    int fd = nondet_int();                                                                                  \
+    int fl = nondet_int();                                                                                  \
+    SCENARIO_PARAMS();                                                                                      \
+    g_tfd = fd; g_dir = DIR;                                                                                \
+    SETARGS;                                                                                                \
+    call_log_reset(); wait_log_reset();                                                                     \
+    g_wait_policy = WAIT_MAY_ABORT;                                                                         \
+    _Bool invalid = !fd_valid(fd);                                                                          \
+    errno = nondet_int();                                                                                   \
+    long r = CALL;                                                                                          \
+    int e = errno;                                                                                          \
+    if (invalid) {                                                                                          \
+      __CPROVER_assert(r == -1 && e == EBADF, #NAME " on an invalid descriptor (closed, negative or >= max_fd) returns the plain call's error (-1/EBADF)"); \
+      __CPROVER_assert(g_waits == 0, #NAME " on an invalid descriptor never suspends the fiber");           \
+      WITNESS_END();                                                                                        \
+    }                                                                                                       \
+    __CPROVER_assert(g_wait_out_of_range == 0, #NAME " hands fiber_wait_for_event only descriptors inside [0,max_fd), whatever descriptor it is given"); \
+  }
+SHIMS(H_ANYFD)
+
 /* ------------------------------------------------------------ (d) descriptor creation */
 static unsigned flags_of(int fd) { return fd_info[fd].flags_; }
 
@@ -332,7 +361,7 @@ void h_fcntl_other(void) {
   int cmd = nondet_int();
   long val = nondet_long();
   _Bool locked = nondet_bool();
-  __CPROVER_assume(locked || cmd != F_SETFL);
+  __CPROVER_assume(locked || (cmd != F_SETFL && cmd != F_GETFL)); /* those two: h_mode_*, h_fcntl_setfl_forward, h_getfl */
   if (locked) fiber_io_lock_thread();
   unsigned char before[MAXFD];
   for (int i = 0; i < MAXFD; ++i) before[i] = fd_info[i].flags_;
@@ -340,9 +369,9 @@ void h_fcntl_other(void) {
   call_log_reset();
   int r = fcntl(fd, cmd, val);
   __CPROVER_assert(g_fcntl_calls == 1 && g_fcntl_fd == fd && g_fcntl_cmd == cmd && g_fcntl_val == val && r == g_fcntl_ret,
-                   "fcntl() commands other than F_SETFL (and every command on a locked thread) are forwarded unchanged and their result returned");
+                   "fcntl() commands other than F_SETFL/F_GETFL (and every command on a locked thread) are forwarded unchanged and their result returned");
   for (int i = 0; i < MAXFD; ++i)
-    __CPROVER_assert(before[i] == fd_info[i].flags_, "fcntl() commands other than F_SETFL leave the blocking-mode bookkeeping alone");
+    __CPROVER_assert(before[i] == fd_info[i].flags_, "fcntl() commands other than F_SETFL/F_GETFL leave the blocking-mode bookkeeping alone");
   WITNESS_END();
 }
 
